@@ -29,11 +29,13 @@ R(kind, k) == CASE kind = "st" -> [cr |-> 6 + k, run |-> 0, fin |-> 0, result |-
                 [] kind = "run" -> [cr |-> 6 + k, run |-> 8 + k, fin |-> 0, result |-> "", state |-> "Running"]
                 [] kind = "ok" -> [cr |-> 6 + k, run |-> 8 + k, fin |-> 20 + 3 * k, result |-> "Succeeded", state |-> "Terminated"]
                 [] kind = "fail" -> [cr |-> 6 + k, run |-> 8 + k, fin |-> 20 + 3 * k, result |-> "Failed", state |-> "Terminated"]
+                \* a task that was created early and finished late (finish times are not ordered like creation times)
+                [] kind = "oklate" -> [cr |-> 6 + k, run |-> 8 + k, fin |-> 50 - 3 * k, result |-> "Succeeded", state |-> "Terminated"]
                 [] kind = "lost" -> [cr |-> 6 + k, run |-> 0, fin |-> 20 + 3 * k, result |-> "", state |-> "DeletedFinalStateUnknown"]
                 [] kind = "killed" -> [cr |-> 6 + k, run |-> 8 + k, fin |-> 20 + 3 * k, result |-> "Killed", state |-> "Terminated"]
 Seqs(K, o) == {<<>>} \cup {<<R(a, o + 1)>> : a \in K} \cup {<<R(a, o + 1), R(b, o + 2)>> : a \in K, b \in K}
 K6 == {"st", "run", "ok", "fail", "lost", "killed"}
-K4 == {"st", "run", "ok", "fail"}
+K4 == {"st", "run", "ok", "fail", "oklate"}
 Ctxs == {"queued", "queuedsa", "queuedenq", "started", "killfuture", "killpast", "adm", "admold", "deleting", "deletingq"}
 JobCases == {[case |-> "job", jb |-> [par |-> FALSE, strat |-> "AllSuccessful", maxAtt |-> m, ctx |-> x, idx |-> <<s>>]] :
                 m \in 1..3, x \in Ctxs, s \in Seqs(K6, 0)}
